@@ -405,7 +405,7 @@ func c19Families(tier string) []engine.Family {
 	c19Init()
 	bodies := c19Bodies()
 	pairs := c19Pairs(len(bodies), tier)
-	const maxPts = 10000
+	const maxPts = 20000
 	fams := []engine.Family{
 		{Name: "two-threads", Arity: []int{len(pairs), 2}, Dev: tierPick(tier, 0, 1), Body: func(x *engine.Exec) {
 			p := pairs[x.Choose(len(pairs))]
